@@ -665,8 +665,13 @@ class OpenSystem:
             
                 dsum = 0.0
                 
+                # energies are counted from the lowest one: the largest 
+                # Boltzmann factor is then exactly 1 and the sum cannot 
+                # underflow to zero
+                emin = numpy.amin(numpy.real(numpy.diag(H.data)))
+                
                 for n in range(H._data.shape[0]):
-                    dat[n,n] = numpy.exp(-H.data[n,n]/(kB_intK*T))
+                    dat[n,n] = numpy.exp(-(H.data[n,n]-emin)/(kB_intK*T))
                     dsum += dat[n,n]
 
                 dat *= 1.0/dsum
